@@ -202,8 +202,17 @@ func superviseList(r *lib.Run, pass string, segs []segment, total int, penv []st
 		cmd.Env = append(append(os.Environ(), penv...), "GOTRACEBACK=all", fmt.Sprintf("VERIF_SEED=%d", r.Seed),
 			// only relevant for the -race build of the thorough tier (checkptr is on there): reports are logged, never fatal
 			"GORACE=halt_on_error=0 exitcode=0 log_path="+filepath.Join(outDir, "race-"+r.Tier))
+		// the child's stores live in a directory of its own, removed here because a child that crashed
+		// or wedged (which is what this supervisor exists for) cannot do it
+		ctmp, terr := os.MkdirTemp("", "c01-child-")
+		if terr == nil {
+			cmd.Env = append(cmd.Env, "TMPDIR="+ctmp)
+		}
 		err := cmd.Run()
 		ef.Close()
+		if terr == nil {
+			os.RemoveAll(ctmp)
+		}
 		code := 0
 		if err != nil {
 			if ee, ok := err.(*exec.ExitError); ok {
